@@ -327,8 +327,10 @@ pub fn gen(prop: &str, tier: &str, seed: u64) -> Out {
                 } else {
                     for _ in 0..16 { let k = r.below(b.len() as u64) as usize; o.push(format!("dec {}", hex(&b[..k]))); o.stat("fault:prefix"); }
                 }
-                for x in faults(&mut r, &b, 12) { o.push(format!("dec {}", hex(&x))); o.stat("fault:mutated"); }
-                for x in layout_faults(&mut r, &b, 6) { o.push(format!("dec {}", hex(&x))); o.stat("fault:layout"); }
+                for x in faults(&mut r, &b, 12) { o.push(format!("dec {}", hex(&x))); o.push(format!("t:fromslice {}", hex(&x))); o.stat("fault:mutated"); }
+                for x in layout_faults(&mut r, &b, 6) { o.push(format!("dec {}", hex(&x))); o.push(format!("t:fromslice {}", hex(&x))); o.stat("fault:layout"); }
+                // proper prefixes through from_slice: a prefix of a valid encoding is never a document
+                if b.len() <= 64 { for k in 1..b.len() { o.push(format!("t:fromslice {}", hex(&b[..k]))); o.push(format!("fsreject {}", hex(&b[..k]))); } }
             }
             // text fallback: JSON text (not starting with a space) through from_slice, with the
             // intended value; scalars whose bytes 4..8 look like an entry word included
@@ -343,6 +345,13 @@ pub fn gen(prop: &str, tier: &str, seed: u64) -> Out {
                     o.push(format!("fsexpect {} {}", hex(t.as_bytes()), want));
                     o.push(format!("t:fromslice {}", hex(t.as_bytes())));
                     o.stat("text-fallback");
+                }
+            }
+            // root scalars whose payload is itself JSON text, every proper prefix
+            for t in ["2024", "12", "true", "null", "[1]", "{}", "\"x\"", "1e5", "-7", "0"] {
+                for v in [Value::String(std::borrow::Cow::Borrowed(t)), Value::Bool(false), Value::Bool(true), Value::Null, Value::Number(Number::UInt64(0))] {
+                    let b = v.to_vec();
+                    for k in 1..b.len() { o.push(format!("fsreject {}", hex(&b[..k]))); o.push(format!("t:fromslice {}", hex(&b[..k]))); }
                 }
             }
             for t in ["12345678", "3.14159265", "-1234567", "\"NoOKay\"", "\"abc0xy\"", "[12]", "[1,2]", "{\"a\":1}", "1234", "12340000", "\"\\u0041bc@@@@\"", "1e5", "true", "null", "\t1", "\n[1]", "[[[[1]]]]", "{}", "[]", "0"] {
@@ -382,6 +391,7 @@ pub fn gen(prop: &str, tier: &str, seed: u64) -> Out {
                     both(&mut o, format!("{} {}", op, d));
                 }
                 for op in ["tobool", "toi64", "tou64"] { o.push(format!("{} {}", op, d)); }
+                both(&mut o, format!("travstr {} eq:-", d));
                 match &v {
                     Value::Array(vs) => {
                         for i in 0..vs.len() + 2 { both(&mut o, format!("getidx {} {}", d, i)); }
@@ -456,6 +466,27 @@ pub fn gen(prop: &str, tier: &str, seed: u64) -> Out {
                     both(&mut o, format!("overlap {} {}", d, e));
                     both(&mut o, format!("overlap {} {}", e, d));
                     both(&mut o, format!("inter {} {} {}", pre, d, d));
+                    // the same questions with JSON text in either position (text branch, mixed dispatch)
+                    if !crate::gen_text::has_nan(&v) && !crate::gen_text::has_nan(&w) && r.chance(1, 2) {
+                        let (mut tv, mut tw) = (String::new(), String::new());
+                        crate::gen_text::render_json(&mut r, &v, crate::gen_text::Style::Strict, &mut tv);
+                        crate::gen_text::render_json(&mut r, &w, crate::gen_text::Style::Strict, &mut tw);
+                        let (tv, tw) = (hex(tv.trim_start_matches(' ').as_bytes()), hex(tw.trim_start_matches(' ').as_bytes()));
+                        // the JSONB side must be the encoding OF THE TEXT (non-negative integers read unsigned)
+                        let dv = hex(&jsonb::parse_value(&unhex(&tv).unwrap()).unwrap().to_vec());
+                        let dw = hex(&jsonb::parse_value(&unhex(&tw).unwrap()).unwrap().to_vec());
+                        o.push(format!("t:distinct {} {}", pre, tv));
+                        for (a, b) in [(&tv, &tw), (&tv, &dw), (&dv, &tw), (&tw, &dv)] {
+                            o.push(format!("t:inter {} {} {}", pre, a, b));
+                            o.push(format!("t:except {} {} {}", pre, a, b));
+                            o.push(format!("t:overlap {} {}", a, b));
+                        }
+                        for opn in ["distinct", "inter", "except", "overlap"] {
+                            if opn == "distinct" { o.push(format!("tj {} {} {} {}", r.next() % 1000000, opn, pre, dv)); }
+                            else if opn == "overlap" { o.push(format!("tj {} {} {} {}", r.next() % 1000000, opn, dv, dw)); }
+                            else { o.push(format!("tj {} {} {} {} {}", r.next() % 1000000, opn, pre, dv, dw)); }
+                        }
+                    }
                     continue;
                 }
                 both(&mut o, format!("concat {} {} {}", pre, d, e));
@@ -470,9 +501,21 @@ pub fn gen(prop: &str, tier: &str, seed: u64) -> Out {
                     both(&mut o, format!("delidx {} {} {}", pre, d, i));
                     both(&mut o, format!("arrins {} {} {} {}", pre, d, i, e));
                 }
+                // the text branch of the same editors (tree implementation) on the text of the document
+                let txt: Option<String> = if crate::gen_text::has_nan(&v) { None } else { let mut t = String::new(); crate::gen_text::render_json(&mut r, &v, crate::gen_text::Style::Strict, &mut t); Some(hex(t.trim_start_matches(' ').as_bytes())) };
                 for _ in 0..5 {
                     let kp = gen_keypath(&mut r, &v);
                     both(&mut o, format!("delkp {} {} {}", pre, d, crate::ops_access::show_keypath(&kp)));
+                    if let Some(t) = &txt { o.push(format!("t:delkp {} {} {}", pre, t, crate::ops_access::show_keypath(&kp))); }
+                }
+                if let Some(t) = &txt {
+                    // every index from -len-1 to len as a one-step key path, and as a step below the root
+                    for i in -len - 1..=len { o.push(format!("t:delkp {} {} i{}", pre, t, i)); o.push(format!("t:delidx {} {} {}", pre, t, i)); }
+                    o.push(format!("t:strip {} {}", pre, t));
+                    for n in names.iter().take(2) { o.push(format!("t:delname {} {} {}", pre, t, hex(n.as_bytes()))); }
+                    o.push(format!("tj {} strip {} {}", r.next() % 1000000, pre, d));
+                    let kp = gen_keypath(&mut r, &v);
+                    o.push(format!("tj {} delkp {} {} {}", r.next() % 1000000, pre, d, crate::ops_access::show_keypath(&kp)));
                 }
                 for n in &names {
                     both(&mut o, format!("objins {} {} {} {} 0", pre, d, hex(n.as_bytes()), e));
@@ -490,6 +533,14 @@ pub fn gen(prop: &str, tier: &str, seed: u64) -> Out {
                 both(&mut o, format!("barr {} {}", pre, if docs.is_empty() { "[]".to_string() } else { docs.join(";") }));
                 let kvs: Vec<String> = docs.iter().map(|dd| format!("{}:{}", hex(r.pick(&["b", "a", "", "é", "a", "k", "ab"]).as_bytes()), dd)).collect();
                 both(&mut o, format!("bobj {} {}", pre, if kvs.is_empty() { "[]".to_string() } else { kvs.join(";") }));
+                if r.chance(1, 25) {
+                    // many parts, few distinct keys, not in order: the LAST part of each key must win
+                    let n = 33 + r.below(40) as usize;
+                    let keys = ["b", "a", "c", "", "é"];
+                    let nk = 2 + r.below(3) as usize;
+                    let kvs: Vec<String> = (0..n).map(|i| format!("{}:{}", hex(keys[i % nk].as_bytes()), hex(&Value::Number(Number::UInt64(i as u64)).to_vec()))).collect();
+                    both(&mut o, format!("bobj {} {}", pre, kvs.join(";")));
+                }
             }
         }
         "C04" | "C12" | "C14" => {
@@ -661,7 +712,36 @@ pub fn gen(prop: &str, tier: &str, seed: u64) -> Out {
                 b"0.1e1", b"123456789012345678901234567890", b"2.2250738585072011e-308", b"4.9e-324", b"2.4703282292062327e-324", b"2.4703282292062328e-324", b"9007199254740993", b"9007199254740993.0",
                 b"[1,]", b"[,1]", b"{\"a\":1,}", b"{\"a\" 1}", b"{a:1}", b"{\"a\":1 \"b\":2}", b"nul", b"truee", b"[1 2]", b"\x0c1", b"\\n1\\t", b"\\x0C[\\r]", b"\\x0c1", b"\"\x01\"", b"\"\xff\"", b"\"\xc3\"", b"{\"a\":1,\"a\":2}", b"", b" ", b"[", b"]", b"{\"", b"\"\\", b"\"\\x\""];
             for t in tricky {
-                for k in 0..=t.len() { o.push(format!("jparse {}", hex(&t[..k]))); o.push(format!("spec:jparse {}", hex(&t[..k]))); }
+                for k in 0..=t.len() {
+                    o.push(format!("jparse {}", hex(&t[..k]))); o.push(format!("spec:jparse {}", hex(&t[..k])));
+                    // … and with the string closed right there
+                    let mut c = t[..k].to_vec(); c.push(b'"');
+                    o.push(format!("jparse {}", hex(&c)));
+                    let mut c2 = b"{\"k\":".to_vec(); c2.extend_from_slice(&c); c2.push(b'}');
+                    o.push(format!("jparse {}", hex(&c2)));
+                }
+            }
+            for t in ["\"\\u\"", "{\"k\":\"\\u\"}", "\"\\u{1234\"", "\"\\uD83D\\u\"", "\"\\uD83D\\u{1234\"", "\"\\u{\"", "\"\\uD83D\\\"", "{\"\\u\":1}"] {
+                o.push(format!("jparse {}", hex(t.as_bytes()))); o.push(format!("jreject {}", hex(t.as_bytes())));
+            }
+            // escaped white space near the end of the text
+            for body in ["{\"a\":1}", "[1,2]", "7", "\"s\"", "null"] {
+                for wsx in ["\\n", "\\r", "\\t", "\\x0C", "\n", " ", "\x0c"] {
+                    let b = body.as_bytes();
+                    let want = show_value(&jsonb::parse_value(b).unwrap());
+                    let t1 = format!("{}{}", body, wsx);
+                    o.push(format!("jexpect {} {}", hex(t1.as_bytes()), want)); o.push(format!("jparse {}", hex(t1.as_bytes())));
+                    if b.len() > 1 { let t2 = format!("{}{}{}", &body[..body.len() - 1], wsx, &body[body.len() - 1..]); if body.ends_with(']') || body.ends_with('}') { o.push(format!("jexpect {} {}", hex(t2.as_bytes()), want)); o.push(format!("jparse {}", hex(t2.as_bytes()))); } }
+                    let t3 = format!("{}{}", wsx, body);
+                    o.push(format!("jexpect {} {}", hex(t3.as_bytes()), want));
+                }
+            }
+            // unpaired surrogates in either hex case, plain and braced
+            for e in ["\\udead", "\\uDEAD", "\\ud800", "\\uD800\\u00e9", "\\u{dead}", "\\ud83d\\ude00", "\\uD83D\\uDE00", "\\ud800\\udc00x", "\\uDbFf"] {
+                let t = format!("\"{}\"", e);
+                o.push(format!("jparse {}", hex(t.as_bytes()))); o.push(format!("spec:jparse {}", hex(t.as_bytes())));
+                let t = format!("{{\"{}\":1}}", e);
+                o.push(format!("jparse {}", hex(t.as_bytes())));
             }
             for _ in 0..scale(tier, 1500, 50000) {
                 let s = soup(&mut r, &["{", "}", "[", "]", ",", ":", "\"", "\\", "u", "1", "0", "-", ".", "e", "t", "true", "null", "false", " ", "\\n", "a", "\"a\"", "\\u00", "D8", "{}", "[]"], 10);
@@ -721,6 +801,14 @@ pub fn gen(prop: &str, tier: &str, seed: u64) -> Out {
                 for k in 0..=t.len() { if t.is_char_boundary(k) { o.push(format!("kpparse {}", hex(&t.as_bytes()[..k]))); } }
                 o.push(format!("kproundtrip {}", hex(t.as_bytes())));
             }
+            for t in ["{a,2147483648}", "{2147483648}", "{99999999999,x}", "{4294967296abc}", "{-2147483649}", "{00000000001}", "{+1}", "{ +0 ,\ta }", "{+2147483647}", "{-0}", "{1a}", "{a1,1}", "{\"1\",1,a}"] {
+                o.push(format!("kpparse {}", hex(t.as_bytes())));
+                o.push(format!("kproundtrip {}", hex(t.as_bytes())));
+            }
+            for t in ["{\"a}", "{\"a,b}", "{\"\n\ny}", "{\"ab}", "{\"}", "{\"a\"", "{\"a\" ,", "{\"a\\\"}"] {
+                o.push(format!("kpparse {}", hex(t.as_bytes())));
+                o.push(format!("kpreject {}", hex(t.as_bytes())));
+            }
             for t in ["{\"abc", "{\"\"}", "{", "}", "{}", " { } ", "{a", "{1,}", "{,}", "{-}", "{+1}", "{2147483648}", "{-2147483649}", "{a\\", "{\"a\\\"}", "{a,\"b\",-2}x"] {
                 o.push(format!("kpparse {}", hex(t.as_bytes())));
             }
@@ -776,7 +864,8 @@ pub fn gen(prop: &str, tier: &str, seed: u64) -> Out {
                     // correspondence of the text branches: the model dispatches like the code
                     if r.chance(1, 8) {
                         let fields: Vec<&str> = l.split(' ').collect();
-                        const MODELLED: &[&str] = &["arrlen", "getidx", "getname", "getkp", "keys", "typeof", "asnull", "asbool", "asnum", "asstr", "existsall", "contains", "cmp", "concat", "arrins", "objins", "distinct", "inter", "except", "overlap", "objdel", "objpick", "travstr", "delname", "delidx", "strip", "toserde", "cmpkey", "pathexists", "getpath"];
+                        const MODELLED: &[&str] = &["arrlen", "getidx", "getname", "getkp", "keys", "typeof", "asnull", "asbool", "asnum", "asstr", "existsall", "contains", "cmp", "concat", "arrins", "objins", "distinct", "inter", "except", "overlap", "objdel", "objpick", "travstr", "delname", "delidx", "strip", "toserde", "cmpkey", "pathexists", "getpath",
+                            "existsany", "each", "vals", "isarr", "isobj", "asi64", "asu64", "tobool", "toi64", "tou64", "delkp", "getpathfirst", "getpatharray", "pathmatch", "toserdeobj"];
                         if !MODELLED.contains(&fields[0]) { continue; }
                         if let Some(pos) = crate::ops_tj::doc_positions(fields[0]) {
                             let mut fs: Vec<String> = fields.iter().map(|s| s.to_string()).collect();
@@ -811,6 +900,43 @@ pub fn gen(prop: &str, tier: &str, seed: u64) -> Out {
                 o.push(format!("t:lazyvec {}", hex(t.trim_start_matches(' ').as_bytes())));
                 o.push(format!("t:lazyvec {}", hex(&v.to_vec())));
                 o.push(format!("t:fromslice {}", hex(t.trim_start_matches(' ').as_bytes())));
+            }
+            // dedicated pairs for the two-document functions: every text/binary combination on
+            // documents related by the derivations (dropped / reordered / re-typed / unwrapped members)
+            for _ in 0..scale(tier, 250, 8000) {
+                let a = gen_value(&mut r, &c, 0);
+                let b = derive(&mut r, &c, &a);
+                if crate::gen_text::has_nan(&a) || crate::gen_text::has_nan(&b) { continue; }
+                let (mut ta, mut tb) = (String::new(), String::new());
+                crate::gen_text::render_json(&mut r, &a, crate::gen_text::Style::Strict, &mut ta);
+                crate::gen_text::render_json(&mut r, &b, crate::gen_text::Style::Strict, &mut tb);
+                let (ta, tb) = (ta.trim_start_matches(' ').to_string(), tb.trim_start_matches(' ').to_string());
+                let (ha, hb) = (hex(&jsonb::parse_value(ta.as_bytes()).unwrap().to_vec()), hex(&jsonb::parse_value(tb.as_bytes()).unwrap().to_vec()));
+                let (xa, xb) = (hex(ta.as_bytes()), hex(tb.as_bytes()));
+                let pre = gen_prefix(&mut r, &c);
+                for (p, q) in [(&xa, &xb), (&xa, &hb), (&ha, &xb), (&xb, &xa), (&xb, &ha), (&hb, &xa)] {
+                    o.push(format!("t:contains {} {}", p, q));
+                    o.push(format!("t:cmp {} {}", p, q));
+                    o.push(format!("t:overlap {} {}", p, q));
+                    o.push(format!("t:inter {} {} {}", pre, p, q));
+                    o.push(format!("t:except {} {} {}", pre, p, q));
+                    o.push(format!("t:concat {} {} {}", pre, p, q));
+                }
+                for opn in ["contains", "cmp", "overlap"] { o.push(format!("tj {} {} {} {}", r.next() % 1000000, opn, ha, hb)); o.push(format!("tj {} {} {} {}", r.next() % 1000000, opn, hb, ha)); }
+                for opn in ["inter", "except", "concat"] { o.push(format!("tj {} {} {} {} {}", r.next() % 1000000, opn, pre, ha, hb)); }
+                o.push(format!("t:distinct {} {}", pre, xa));
+                o.push(format!("tj {} distinct {} {}", r.next() % 1000000, pre, ha));
+            }
+            // scalar texts in every spelling through every single-document function: the text itself
+            // and the encoding of the text must answer alike (tjtext), and the model of the whole
+            // function must agree with the code (t:)
+            for t in ["-0", "-0 ", "-0\n", "0", "-0.0", "0.0", "0e0", "1.0", "1e2", "100", "-1", "1e400", "18446744073709551615", "9223372036854775808", "-9223372036854775808", "9007199254740993",
+                      "true", "true ", "false\n", "null", "null\t", "\"true\"", "\"12\"", "\"-0\"", "\"1e2\"", "\"\"", "\" \"", "[]", "{}", "[1]", "{\"a\":1}", "\n[1]", "\t{\"a\":[1,2]}"] {
+                let x = hex(t.as_bytes());
+                for opn in ["arrlen", "keys", "typeof", "asnull", "asbool", "asnum", "asstr", "asi64", "asu64", "isarr", "isobj", "tobool", "toi64", "tou64", "each", "vals", "toserde", "toserdeobj"] {
+                    o.push(format!("tjtext {} {}", opn, x));
+                    o.push(format!("t:{} {}", opn, x));
+                }
             }
             for (t, d) in [("-0", "toserde"), ("\"\\ud800\"", "toserde"), ("\t1", "typeof"), ("\n[1]", "typeof"), ("[12345678]", "contains"), ("\"abc0xy\"", "asstr"), ("12345678", "asu64")] {
                 let v = jsonb::parse_value(t.as_bytes()).unwrap();
@@ -922,6 +1048,7 @@ pub fn gen(prop: &str, tier: &str, seed: u64) -> Out {
                     both(&mut o, format!("getkp {} i{}", d, i));
                     both(&mut o, format!("delkp {} {} i0,i{}", pre, d, i));
                     if i >= 0 { both(&mut o, format!("getidx {} {}", d, i)); }
+                    for big in [u64::MAX, u64::MAX / 2, 1u64 << 62, (1u64 << 62) - 1, (1u64 << 32) + i.unsigned_abs(), 1u64 << 63] { both(&mut o, format!("getidx {} {}", d, big)); }
                     o.stat("extreme:int-args");
                 }
                 for p in ["$[2147483647]", "$[last - 2147483647]", "$[last + 2147483647]", "$[0 to 2147483647]", "$[last - 2147483647 to last + 2147483647]",
@@ -968,6 +1095,32 @@ pub fn gen(prop: &str, tier: &str, seed: u64) -> Out {
                     let mut it = l.split(' ');
                     let _op = it.next();
                     if let Some(pre) = it.next() { if pre != "-" && r.chance(1, 4) { o.push(l.clone()); } }
+                }
+            }
+            // the modes oracle (batches appended into buffers filled by earlier calls, predicate paths in between)
+            {
+                let o2 = gen("C15", tier, seed ^ 0x17);
+                for l in o2.lines { if l.starts_with("modes ") && r.chance(1, 2) { o.push(l.clone()); } }
+            }
+            // the same editors with JSON-text arguments (their text branch writes the buffer itself)
+            {
+                let o2 = gen("C06", tier, seed ^ 0x171);
+                for l in o2.lines {
+                    let f: Vec<&str> = l.split(' ').collect();
+                    let docpos: &[usize] = match f[0] { "concat" => &[2, 3], "delname" | "delidx" | "delkp" | "strip" | "objdel" | "objpick" | "distinct" => &[2], "arrins" | "objins" => &[2, 4], _ => &[] };
+                    if docpos.is_empty() || f[1] == "-" || !r.chance(1, 6) { continue; }
+                    let mut fs: Vec<String> = f.iter().map(|x| x.to_string()).collect();
+                    let mask = 1 + r.below((1u64 << docpos.len()) - 1);
+                    let mut ok = true;
+                    for (k, p) in docpos.iter().enumerate() {
+                        if mask & (1 << k) == 0 { continue; }
+                        let raw = unhex(f[*p]).unwrap_or_default();
+                        match jsonb::from_slice(&raw).ok() {
+                            Some(v) if !crate::gen_text::has_nan(&v) => { let mut t = String::new(); crate::gen_text::render_json(&mut r, &v, crate::gen_text::Style::Strict, &mut t); fs[*p] = hex(t.trim_start_matches(' ').as_bytes()); }
+                            _ => ok = false,
+                        }
+                    }
+                    if ok { o.push(format!("t:{}", fs.join(" "))); }
                 }
             }
             // selector writers (data holds earlier results, the offsets vector may be fresh) and the
